@@ -1,4 +1,26 @@
 #!/bin/bash
-# Extra stage for C12 (thorough tier only): coverage-guided paragraphs (parameters + a horizontal list in the Box language),
-# decided by the monitor's own oracle (the lines reproduce the broken list; break_line agrees with its attempts). See fuzz.sh.
-exec "$(dirname "$0")/fuzz.sh" "${1:-quick}" "${2:-/tmp}" c12_paragraph 4096
+# Extra stages for C12.
+#  1. (both tiers) the `box` BINARY: skip flags must reach the line breaker as given (stages/c12_cli.py). The binary is built from
+#     the repository's working tree into the harness's target directory; if it cannot be built the stage is inconclusive.
+#  2. (thorough tier) coverage-guided paragraphs, decided by the monitor's own oracle (see fuzz.sh).
+set -u
+TIER="${1:-quick}"; OUT="${2:-/tmp}"
+HERE="$(cd "$(dirname "$0")" && pwd)"
+ROOT="${VERIF_ROOT:-/verif}"
+HARNESS="${VERIF_HARNESS:-$ROOT/harness}"
+REPO="${VERIF_REPO:-/repo}"
+TGT="${CARGO_TARGET_DIR:-$HARNESS/target}/boxbin"
+if (cd "$REPO" && CARGO_NET_OFFLINE=true cargo build --release --offline -p boxworks-bin --bin box --target-dir "$TGT") >"$OUT/box-build.log" 2>&1; then
+  python3 "$HERE/c12_cli.py" "$OUT" "$TGT/release/box" >"$OUT/cli.log" 2>&1 || \
+    python3 - "$OUT" <<'PY'
+import json,sys
+json.dump({"stage":"cli","evaluations":0,"observed":{},"violations":[],"inconclusive":["stages/c12_cli.py failed: see cli.log"],"samples":[]},open(sys.argv[1]+"/cli.json","w"))
+PY
+else
+  python3 - "$OUT" <<'PY'
+import json,sys
+json.dump({"stage":"cli","evaluations":0,"observed":{},"violations":[],"inconclusive":["the box binary could not be built (box-build.log)"],"samples":[]},open(sys.argv[1]+"/cli.json","w"))
+PY
+fi
+"$HERE/fuzz.sh" "$TIER" "$OUT" c12_paragraph 4096
+exit 0
